@@ -531,6 +531,10 @@ class FieldsConstructor(Constructor):
         return obj
 
 
+# not None, which can be a key of (non-JSON) data
+NO_DISCRIMINATOR: Any = object()
+
+
 @dataclass
 class SimpleObjectMethod(DeserializationMethod):
     constructor: Constructor
@@ -541,7 +545,7 @@ class SimpleObjectMethod(DeserializationMethod):
     unexpected: str
 
     def deserialize(self, data: Any) -> Any:
-        discriminator: Optional[str] = None
+        discriminator: Any = NO_DISCRIMINATOR
         if not isinstance(data, dict):
             if isinstance(data, Discriminated):
                 discriminator = data.discriminator
@@ -629,7 +633,7 @@ class ObjectMethod(DeserializationMethod):
         )
 
     def deserialize(self, data: Any) -> Any:
-        discriminator: Optional[str] = None
+        discriminator: Any = NO_DISCRIMINATOR
         if not isinstance(data, dict):
             if isinstance(data, Discriminated):
                 discriminator = data.discriminator
